@@ -227,6 +227,7 @@ def run(ctx, rep):
                     rep.ob("interposable-guard", f"{s['rv']['variant']}@{'guarded' if bi in fb else 'unguarded'}", bi in fb,
                            "an interposable symbol may be defined elsewhere at run time: bypassing the GOT binds the reference to the local definition", nb.file, s["l"])
         rep.floor("interposable-guard", "GOT-dropping relaxation constructions", n, 4)
+    _relax_filter(ctx, rep)
     rep.assume("the instruction bytes matched before a relaxation is chosen (REX.W=1, X=0, B=0) are those new_relaxation tests; runtime values of symbols are not decided")
 
 
@@ -248,3 +249,27 @@ def kind_names(kind, body):
                                 out.append(y["def"].split("::")[-1])
         return sorted(set(out))
     return []
+
+
+def _relax_filter(ctx, rep):
+    """A relaxation found by new_relaxation is used iff relaxation is enabled or the relaxation is mandatory (e.g. TLS transitions the output kind requires):
+    --no-relax must not drop mandatory rewrites, and optional ones must not be applied when relaxation is off. The same filter guards the layout-time
+    (elf::process_relocation) and the write-time (elf_writer::apply_relocation) use."""
+    import decide
+    from mir import callee_key
+    F, P = ctx.facts(), ctx.program()
+    rep.rule("relax-filter", "the filter on new_relaxation's result keeps a relaxation iff args.should_relax() || relaxation.is_mandatory() - at layout time and at write time alike")
+    n = 0
+    for parent in ("libwild::elf::process_relocation", "libwild::elf_writer::apply_relocation"):
+        for c in F.closures_of(parent):
+            names = {(callee_key(t["f"]) or "").split("::")[-1] for _b, t in P.flow(c).calls()}
+            if "is_mandatory" not in names or c.locals[0].strip() != "bool":
+                continue
+            n += 1
+            paths = decide.bool_paths(P, F, c)
+            dom = decide.table_atoms(paths)
+            # `args.should_relax()` (layout time) and the field it returns, `args.relax` (write time), are the same predicate (ElfArgs::should_relax = self.relax)
+            relax_atom = "should_relax" if any("should_relax" in a for a in dom) else ".relax"
+            ok, why = decide.check_formula(paths, {"relax": relax_atom, "mand": "is_mandatory"}, lambda v: bool(v["relax"] or v["mand"]))
+            rep.ob("relax-filter", parent.split("::")[-1], ok, why if ok else why + ": with --no-relax a mandatory rewrite is dropped, or an optional one is applied", c.file, c.line)
+    rep.floor("relax-filter", "relaxation filters (layout time, write time)", n, 2)
